@@ -13,8 +13,10 @@ LEAN_MODULES = ["RedunModel.Props.C27"]
 LEAN_DRIVERS = ["C27"]
 THEOREMS = [
     "RedunModel.C27.precedence",
-    "RedunModel.C27.precedence_raw",
     "RedunModel.C27.precedence_layers",
+    "RedunModel.C27.precedence_raw",
+    "RedunModel.C27.rightmost_spec",
+    "RedunModel.C27.rightmost_none",
     "RedunModel.C27.definition_lowest",
     "RedunModel.C27.call_time_over_inherited",
     "RedunModel.C27.exports_accumulate",
@@ -35,9 +37,13 @@ THEOREMS = [
     "RedunModel.C27.option_jobs_under_parent",
     "RedunModel.C27.evalOptions_wf",
     "RedunModel.C27.jobInfo_wf",
+    "RedunModel.C27.constructed_calls_wf",
     "RedunModel.C27.export_options_accumulates",
     "RedunModel.C27.options_drops_exports_note",
     "RedunModel.C27.def_export_cache_note",
+    "RedunModel.C27.run_evaluates_options_refuted",
+    "RedunModel.C27.run_evaluates_options_partial",
+    "RedunModel.C27.run_crash_iff",
 ]
 TRUSTED = [
     "modelled, not verified: Python dict semantics ({**a, **b}, d[k] = v, d.pop, insertion order, unique keys = Options.WF), "
